@@ -901,8 +901,25 @@ def _shrink_candidates(case):
 
 
 MANIFEST = {
-    'level_text': 'TO BE FILLED',
-    'level_note': 'TO BE FILLED',
+    'level_text': 'Partial proof + exact correspondence. Proved in Coq (unbounded, closed under the global context): (1) the '
+                  'hardware-scaling clause for ALL command lists (running the commands transformed by '
+                  '_transform_linspace_commands gives step for step the history with channel k mapped to (v-offset_k)/amplitude_k, '
+                  'same times, same errors); (2) the increment kernel DepState.required_increment_from for any nesting depth '
+                  '(the induction step of the invariant "register holds base + sum factors*indices"); (3) refutations: the '
+                  'faithful model of the translator violates the unguarded staircase statement on the known-finding classes. '
+                  'The staircase clause itself (VM history of translate(build p) = unrolled default program, same total '
+                  'duration) is stated (C17_staircase_statement, with executable guards) but NOT proved; it is decided per '
+                  'input by the correspondence check: the real pipeline create_program(LinSpaceBuilder) -> '
+                  'to_increment_commands -> LinSpaceVM is run on generated templates and compared exactly, inside Coq, with '
+                  'the executable model (builder, translator incl. first-pass unrolling, VM) and with the independently '
+                  'unrolled default Loop program.',
+    'level_note': 'Trusted: Coq kernel/vm_compute; harness rendering of source terms to templates (cross-checked against the '
+                  'default program on every case); qupulse Loop builder as reference; float arithmetic is exact on the generated '
+                  'dyadic values (decimal values are a separate stream compared within resolution x steps). Two defects repaired '
+                  'in /repo (count-1 repetition played twice, int voltages raised), five recorded as known findings (repetition '
+                  'loops replaying entry-state dependent commands, dependency key shared across depths -> AssertionError, '
+                  'zero-factor register aliasing plain voltages, loop-index rebinding undone under a repetition, unused outputs '
+                  'collapsing in _channel_transformations).',
     'technique': 'Coq proof over a hand-written executable model + exact correspondence check against the real pipeline',
     'design_ref': 'DESIGN.md §5 C17',
 }
